@@ -21,7 +21,12 @@ R16.4 zero-range guard: a division by ``max - min`` of the data is guarded.
 R16.5 dataset level: get_downsampled_scatter samples the selected events,
       returns the unscaled data under the routine's mask and writes that
       mask back at the positions of the same selection.
-(The event-limit site in Filter.update is covered by C03 R3.5.)
+      Every path to a return runs the sampler; the mask handed out is a
+      newly allocated array on every path.
+R16.6 the event-limit block of Filter.update stores nothing on the Filter
+      instance that update() reads, and the draw is not skipped depending on
+      instance state: the limited selection is drawn from the current
+      eligible events on every update (shape of the block: C03 R3.5).
 """
 from __future__ import annotations
 
@@ -1381,6 +1386,19 @@ def _self_store_attrs(node):
     return out
 
 
+def _self_reads(n):
+    """attribute names of self read by this node"""
+    if isinstance(n, ast.Attribute) and isinstance(
+            n.value, ast.Name) and n.value.id == "self" and isinstance(
+            n.ctx, ast.Load):
+        return [n.attr]
+    if isinstance(n, ast.Call) and call_name(n) in ("getattr", "hasattr") \
+            and len(n.args) >= 2 and txt(n.args[0]) == "self" \
+            and isinstance(n.args[1], ast.Constant):
+        return [n.args[1].value]
+    return []
+
+
 def r166(ctx, repo):
     """the event limit is drawn from the current selection on every update:
     the limit block keeps nothing on the Filter instance that an update
@@ -1406,12 +1424,9 @@ def r166(ctx, repo):
     stores = _self_store_attrs(body)
     cls = upd.parent
     readers = {}
-    for a, _n in stores:
-        for nn in walk(upd):
-            if isinstance(nn, ast.Attribute) and nn.attr == a and isinstance(
-                    nn.value, ast.Name) and nn.value.id == "self" \
-                    and isinstance(nn.ctx, ast.Load):
-                readers.setdefault(a, nn)
+    for nn in walk(upd):
+        for a in _self_reads(nn):
+            readers.setdefault(a, nn)
     del cls
     bad = [(a, n_) for a, n_ in stores if a in readers]
     ctx.ob("R16.6", not bad,
@@ -1427,12 +1442,10 @@ def r166(ctx, repo):
     # the draw is not skipped depending on instance state
     cond = None
     n = c
-    while n is not block:
+    while n is not block.parent:
         par = n.parent
-        if isinstance(par, ast.If) and par is not block and any(
-                isinstance(x, ast.Attribute) and isinstance(
-                    x.value, ast.Name) and x.value.id == "self"
-                for x in ast.walk(par.test)):
+        if isinstance(par, ast.If) and any(
+                _self_reads(x) for x in ast.walk(par.test)):
             cond = par
         n = par
     ctx.ob("R16.6", cond is None,
@@ -1549,6 +1562,53 @@ MUTANTS = [
     ("grid: addition sized by the request instead of the shortfall", DS,
      ("                                   size=abs(diff),\n",
       "                                   size=samples_int,\n"), "R16.3"),
+    ("scatter: request-size short-cut skips the sampler (seeded C16_4)",
+     CORE,
+     ("        _, _, idx = downsampling.downsample_grid(xs, ys,\n"
+      "                                                 samples=downsample,\n"
+      "                                                 remove_invalid="
+      "remove_invalid,\n"
+      "                                                 ret_idx=True)\n",
+      "        if downsample >= x.size:\n"
+      "            idx = np.ones(x.size, dtype=bool)\n"
+      "        else:\n"
+      "            _, _, idx = downsampling.downsample_grid(\n"
+      "                xs, ys, samples=downsample,\n"
+      "                remove_invalid=remove_invalid, ret_idx=True)\n"),
+     "R16.5"),
+    ("scatter: mask aliases the sampler's array (seeded C16_6)", CORE,
+     ("            mask = np.zeros(len(self), dtype=bool)\n"
+      "            mids = np.where(self.filter.all)[0]\n"
+      "            mask[mids] = idx\n",
+      "            if idx.size == len(self):\n"
+      "                mask = idx\n"
+      "            else:\n"
+      "                mask = np.zeros(len(self), dtype=bool)\n"
+      "                mids = np.where(self.filter.all)[0]\n"
+      "                mask[mids] = idx\n"), "R16.5"),
+    ("limit: selection memoised on the instance (seeded C16_5)", FILT,
+     [("        self._old_config = {}\n\n    def update(",
+       "        self._old_config = {}\n"
+       "        self._limit_cache = (None, None)\n\n    def update("),
+      ("                sub = arr_all[arr_all]\n                _, idx = downsampling.downsample_rand(sub,\n                                                      samples=limit,\n                                                      ret_idx=True)\n                sub[~idx] = False\n                arr_all[arr_all] = sub\n",
+       "                lkey = (limit, int(np.sum(arr_all)))\n"
+       "                if self._limit_cache[0] == lkey:\n"
+       "                    arr_all &= self._limit_cache[1]\n"
+       "                else:\n"
+       "                    sub = arr_all[arr_all]\n"
+       "                    _, idx = downsampling.downsample_rand(\n"
+       "                        sub, samples=limit, ret_idx=True)\n"
+       "                    sub[~idx] = False\n"
+       "                    arr_all[arr_all] = sub\n"
+       "                    self._limit_cache = (lkey, arr_all.copy())\n")],
+     "R16.6"),
+    ("limit: drawn only on the first update of an instance", FILT,
+     [("            if cfg_cur[\"limit events\"] > 0:\n",
+       "            if cfg_cur[\"limit events\"] > 0 and not getattr(\n"
+       "                    self, \"_limited\", False):\n"),
+      ("                arr_all[arr_all] = sub\n",
+       "                arr_all[arr_all] = sub\n"
+       "                self._limited = True\n")], "R16.6"),
     ("scatter: mask written at unfiltered positions", CORE,
      ("            mids = np.where(self.filter.all)[0]\n",
       "            mids = np.where(self.filter.manual)[0]\n"), "R16.5"),
@@ -1589,6 +1649,22 @@ TWINS = [
      ("                                   size=diff,\n",
       "                                   size=np.sum(keepdb) - samples_int,"
       "\n")),
+    ("limit: locals renamed, selected count kept in a local", FILT,
+     ("                sub = arr_all[arr_all]\n                _, idx = downsampling.downsample_rand(sub,\n                                                      samples=limit,\n                                                      ret_idx=True)\n                sub[~idx] = False\n                arr_all[arr_all] = sub\n",
+      "                selected = arr_all[arr_all]\n"
+      "                n_selected = selected.size\n"
+      "                _, drawn = downsampling.downsample_rand(\n"
+      "                    selected, samples=limit, ret_idx=True)\n"
+      "                assert drawn.size == n_selected\n"
+      "                selected[~drawn] = False\n"
+      "                arr_all[arr_all] = selected\n")),
+    ("scatter: mask allocated before the branch", CORE,
+     ("        if ret_mask:\n"
+      "            # Mask is a boolean array of len(self)\n"
+      "            mask = np.zeros(len(self), dtype=bool)\n",
+      "        # Mask is a boolean array of len(self)\n"
+      "        mask = np.zeros(len(self), dtype=bool)\n"
+      "        if ret_mask:\n")),
     ("scatter: positions via flatnonzero", CORE,
      ("            mids = np.where(self.filter.all)[0]\n",
       "            mids = np.flatnonzero(self.filter.all)\n")),
